@@ -331,6 +331,8 @@ def search_chain_shape(ctx, rule, parts=("order", "score", "filter", "comparator
     unknown = []
     for st in stages:
         n = st[0]
+        if n == "inspect":
+            continue                  # observes items, changes nothing
         if n in ("iter", "into_iter", "copied", "cloned"):
             roles.append(("source", st))
         elif n.startswith("limit_sort"):
@@ -515,6 +517,10 @@ def per_record_purity(ctx, rule):
         key = "write:%s.%s" % (adt.rsplit("::", 1)[-1], f)
         if (adt, f) in allowed or adt.endswith("DistMatrix"):
             ctx.ok(rule, key, "-", "per-record path writes only reset-before-read scratch: %s.%s" % (adt, f), kind="S")
+        elif RS.value_never_leaves(ctx, [facts.bodies[x] for x in ctx.cg.reachable(roots) if x in facts.bodies],
+                                   lambda e, adt=adt, f=f: isinstance(e, tuple) and len(e) > 3 and e[0] == "field" and str(e[2]) == f and e[3] == adt)[0]:
+            ctx.ok(rule, key, "-", "%s.%s is diagnostic state (written, or read only to update itself): no verdict depends on it" % (adt, f),
+                   nontrivial=True, kind="S")
         else:
             wb, how = None, None
             for r in roots:
@@ -633,7 +639,21 @@ def score_table(ctx, rule):
     for b in facts.fns():
         if b.kind == "method" and b.impl_trait == "std::ops::IndexMut" and "Scores" in (b.impl_self or ""):
             e = S.strip_refs(ctx.sym(b).local(0))
-            ok = e[0] == "index" and e[2][0] == "cast" and e[2][2][0] == "discr"
+            def is_discr(x, depth=0):
+                x = S.strip_refs(x)
+                if x[0] == "cast" and S.strip_refs(x[2])[0] == "discr":
+                    return True
+                # a conversion function that itself is `variant as usize` (impl From<ScoreType> for usize)
+                if x[0] == "call" and len(x[2]) == 1 and depth < 2:
+                    cands = [fb_ for fb_ in facts.fns() if fb_.kind in ("fn", "method") and (fb_.cn == x[1] or
+                             (x[1].endswith("From::from") and fb_.impl_trait and fb_.impl_trait.startswith("std::convert::From") and
+                              "ScoreType" in (fb_.impl_trait or "") + str(fb_.local_ty(1))))]
+                    for fb_ in cands:
+                        r_ = S.strip_refs(ctx.sym(fb_).local(0))
+                        if r_[0] == "cast" and S.strip_refs(r_[2])[0] == "discr" and S.strip_refs(S.strip_refs(r_[2])[1]) == ("arg", 1):
+                            return True
+                return False
+            ok = e[0] == "index" and is_discr(e[2])
             if ok:
                 ctx.ok(rule, "index-by-discriminant", b.where(), "Scores[ScoreType] indexes the array with the variant's discriminant")
             else:
